@@ -32,7 +32,7 @@ THEOREMS = {
     "C17": ["Cntgs.C17.failed_allocation_is_clean", "Cntgs.C17.reallocate_strong", "Cntgs.C17.copy_assign_fault",
             "Cntgs.C17.allocPair_fault", "Cntgs.C17.construction_fault", "Cntgs.C17.reserve_fault_unchanged",
             "Cntgs.C17.copy_fault_unchanged", "Cntgs.C17.move_assign_fault_unchanged", "Cntgs.C17.copy_assign_fault_world",
-            "Cntgs.C17.allocTable_fault"],
+            "Cntgs.C17.allocTable_fault", "Cntgs.C17.history_with_allocation_failures", "Cntgs.C17.failed_step"],
     "C05": ["Cntgs.C05.fields_greedy", "Cntgs.C05.alignUp_is_lowest", "Cntgs.C05.elements_greedy", "Cntgs.C05.units_tight",
             "Cntgs.elemSize_fixed", "Cntgs.elemSize_bound"],
     "C01": ["Cntgs.C01.history_offset_table_partial", "Cntgs.C01.history_offset_table_no_overlap", "Cntgs.C01.history_stride", "Cntgs.C01.history_cap",
